@@ -12,7 +12,8 @@ CHECKS = {
         text="Every clause of the property (common type == C11 usual arithmetic conversions with rank=width, totality, "
              "symmetry, argument immutability, determinism, promotion rule) is a postcondition/frame/reads clause on the "
              "real c11_cast / promoted_type / ValueType comparison dunders, discharged by z3 for ALL widths (symbolic "
-             "Int >= 1) and both signednesses on every feasible path; path conditions are proved to cover the precondition.",
+             "Int >= 1) and both signednesses on every feasible path; path conditions are proved to cover the precondition."
+             " History: ground two-call instances (every ordered pair of eight representative type pairs) show the rules are functions of their arguments - no memo or hidden state - with native replay.",
         design_ref="DESIGN.md section 3, C04",
         note=TRUST + "Integer ValueTypes only (group without EXTERNAL/VOID/FLOAT); copy.deepcopy and enum.Flag hosted by CPython.",
         technique="contract-based deductive verification: AST->z3 verification conditions (LIA) on the real functions, "
@@ -38,7 +39,8 @@ CHECKS = {
              "bitwise, shift, unary, relational, equality, logical, conditional): for children of every IR class and all 8x8 "
              "integer type pairs the built node is well-formed, has the C11 result type and equals the C11 value for ALL "
              "operand values (z3 bit-vectors; C-side UB excluded by precondition). Depth by structural induction. Refuted "
-             "instances on the pinned tree replay natively and are listed as known findings F2 F3 F4 F5b F21c F22 F23 F24.",
+             "instances on the pinned tree replay natively and are listed as known findings F2 F3 F4 F5b F21c F22 F23 F24."
+             " Frame: no callback modifies the type objects of its operands (they may be shared with declarations and routine signatures). Every bit-vector node class is exercised as condition of ?: / operand of && also in the quick tier.",
         design_ref="DESIGN.md section 3, C02",
         note=TRUST + "add_op through its contract (A-NAMES); child il_read() through the operand contract; T-IND; literal-"
              "literal operand pairs are C09's folding contract; quick tier uses all type pairs for Variable operands and a "
@@ -70,7 +72,8 @@ CHECKS = {
              "per-behaviour attribute from an arbitrary symbolic/dirty state; (3) every public entry point (transform_insn, "
              "compile_insn, compile_c_stmt, compile_sub_routine, add_sub_routine) leaves that state reset on normal AND "
              "exceptional exit, with parse/transform replaced by havocking stubs that may raise; (4) writes to shared resource "
-             "objects are unobservable (two-state obligations); (5) numbering enters results only through the name h_tmp<N>.",
+             "objects are unobservable (two-state obligations); (5) numbering enters results only through the name h_tmp<N>."
+             " reset() is verified from every partially dirty pre-state (each state component dirty alone); the order of the final sequence is independent of the numbering counters (0, 9, 99).",
         design_ref="DESIGN.md section 3, C14",
         note=TRUST + "Lark parse/transform as assumed contracts (T-LARK); induction over call history is metatheory (T-IND); "
              "per-callback write frames are the #modifies obligations of C02/C03 (add_op via contract).",
@@ -96,7 +99,8 @@ CHECKS = {
              "(base, preservation for an arbitrary element, exit): one entry per name, one tree per part in order, trees are a "
              "function of (grammar, text) only; a failure at an ARBITRARY part index with any Exception class yields the entry "
              "with no trees and the error's class name, never an exception, and touches nothing else. The schedule quantifier "
-             "(pool sizes / interleavings) is NOT verified: it follows only from the assumed contract of Pool.imap (T-POOL).",
+             "(pool sizes / interleavings) is NOT verified: it follows only from the assumed contract of Pool.imap (T-POOL)."
+             " Bounded addition (labelled, not counted as proved): the real Parser.parse with the real pool on synthetic inputs whose sizes straddle pool and batch sizes.",
         design_ref="DESIGN.md section 3, C18",
         note=TRUST + "Assumed external contracts: Lark(...).parse deterministic, returns or raises (T-LARK); multiprocessing."
              "Pool.imap yields f(x) once per x for every schedule, pickling preserves values (T-POOL); tqdm is the identity.",
@@ -110,7 +114,8 @@ CHECKS = {
              "block and the rest in braces and loses nothing when nothing precedes the first marker (the general case is refuted: "
              "known finding F20); load_insn_behavior is verified for files of any length by a fold invariant using the two helper "
              "contracts (only '#' lines are skipped, malformed lines raise). The real pattern strings are read from the source and "
-             "translated mechanically; all 2181 bundled lines / 72 compounds are ground obligations.",
+             "translated mechanically; all 2181 bundled lines / 72 compounds are ground obligations."
+             " The loader keeps no class- / module-level mutable state or memoisation (second instance loads the same), with a native two-instance replay; witnesses with several top-level items after the marker.",
         design_ref="DESIGN.md section 3, C19",
         note=TRUST + "T-RE: the sre-parse -> SMT-LIB regex translation and the leftmost-match rule; ASCII strings; cvc5 1.4 "
              "(strings) discharges what z3's sequence solver leaves unknown; counter-models come from a length-bounded model search.",
@@ -125,7 +130,8 @@ CHECKS = {
              "init; while(c){body; step}; switch/while/do rejected; empty statements change nothing; emit_final_seq_return orders "
              "immediate initialisers then statements; all 11 assignment operators: exactly one Assignment to the target whose "
              "stored value equals (T)(target op source) for ALL values over 8x8 types (division decided structurally); chained "
-             "assignment. Refuted instances replay natively: known findings F5c F6 F7 F29 F31 F31b.",
+             "assignment. Refuted instances replay natively: known findings F5c F6 F7 F29 F31 F31b."
+             " Included from neighbouring contracts: all pending side effects of a statement are sequenced with it and a value-unused k++; inside an if / else arm runs in that arm only (C06); the operator of / and % follows the node's own type also for operands of different signedness (C01).",
         design_ref="DESIGN.md section 3, C05",
         note=TRUST + "SEQN/BRANCH/REPEAT denotation lemma (T-RZIL) and statement nesting by induction (T-IND) are metatheory; "
              "pending side effects (C06) excluded here; Sequence.il_write and emit_final_seq_return item lists are enumerated "
@@ -140,7 +146,8 @@ CHECKS = {
              "contract, and must have sort(node); callbacks establish WF(node) and the state clauses (single width per local, "
              "register write / store / jump target / ret_val widths). Both BRANCH/ITE arms and loop bodies are sub-terms, so every "
              "path is covered. Refuted instances replay natively: known findings F4 F5 F5b F5c F6 F7 F21 F21b F21c F22 F23."
-             " Postfix ++/-- keep the operand's width (INC/DEC(v, n) needs n = width of v) for all eight types.",
+             " Postfix ++/-- keep the operand's width (INC/DEC(v, n) needs n = width of v) for all eight types."
+             " Data: the declared helper prototypes (qemu_rzil_macros.json), from which argument widths and the sort of macro calls follow, equal the prototype table.",
         design_ref="DESIGN.md section 3, C10",
         note=TRUST + "Sort rules transcribed in spec/rzil.py (T-RZIL), plugin macro result sorts (T-PLUGIN), composition over depth (T-IND).",
         technique="contract-based deductive verification: emission contracts with a sort checker over symbolic templates (ground + "
@@ -152,7 +159,8 @@ CHECKS = {
              "(atom linearity on symbolic templates); PureExec/Hybrid declare at most once; the emit loops append each non-empty "
              "il_init_var() exactly once for holder tables of ANY size (fold invariants); callbacks consume every operand they "
              "receive. The global one-raw-use conclusion follows by the linearity lemma (metatheory). Known finding F14."
-             " Argument lists of sub-routine calls: value arguments are read exactly once; a borrowed pure parameter passed on goes through il_read (counter advances, first read raw, later reads DUP) - contracts shared with C08.",
+             " Argument lists of sub-routine calls: value arguments are read exactly once; a borrowed pure parameter passed on goes through il_read (counter advances, first read raw, later reads DUP) - contracts shared with C08."
+             " Seven statement-block shapes for emit_stmt_blocks (incl. operand ids 9/10, 99/100 and two statements that print identically); parameters of external type are bare names; arguments of plugin calls go through il_read; the dead arm of a folded ?: leaves nothing declared.",
         design_ref="DESIGN.md section 3, C12",
         note=TRUST + "Linearity lemma and induction over the tree are metatheory (T-IND); emit_stmt_blocks statement lists are enumerated "
              "shapes (bounded).",
@@ -166,7 +174,8 @@ CHECKS = {
              "(Sequence.__init__ for lists of ANY length by fold invariant, final instruction sequence) raise on the value of a "
              "rule without handler (labels, comma expressions); Tree-injection: each of 29 callbacks, given an unhandled value in "
              "any child position, raises or keeps it reachable in its result so that a later consumer/emission rejects it."
-             " Statement lists of if / else / for bodies including blocks nested in blocks: every statement reaches the emitted sequence, in order (statement-list clauses shared with C05).",
+             " Statement lists of if / else / for bodies including blocks nested in blocks: every statement reaches the emitted sequence, in order (statement-list clauses shared with C05)."
+             " A `?rule` with a callback has no alternative consisting of a single terminal (lark would inline it and bypass the rejecting callback).",
         design_ref="DESIGN.md section 3, C15",
         note=TRUST + "lark Transformer dispatch (T-LARK); a Tree still contained in a result is rejected by emission (T-IND); value "
              "placeholders with pending side effects are C06's.",
@@ -209,7 +218,8 @@ CHECKS = {
              "(parameters in order, own transformer). Isolation: temporary naming contract <prefix>h_tmp<N> for symbolic N, "
              "compile_sub_routine passes '<name>_', and string lemmas (z3 seq, cvc5) that callee and caller temporaries differ "
              "for all names and numberings incl. nested calls; locals: ground over the 13 bundled bodies + API witness "
-             "(known findings F10b F10c).",
+             "(known findings F10b F10c)."
+             " Data: the 13 bundled routine sources are the reviewed ones (spec/bundled_data.py) and the helper prototypes in qemu_rzil_macros.json are the prototypes of spec/hexagon.MACRO_PROTOTYPES; a consumer of a call result does not retype the routine.",
         design_ref="DESIGN.md section 3, C08",
         note=TRUST + "IL locals and ret_val are instruction wide and hex_<routine>() runs the compiled body (T-RZIL/T-PLUGIN); the return "
              "path is C03's return lemma; 'the body computes what its C source computes' is C01's composition (T-IND); f-string "
@@ -242,7 +252,8 @@ CHECKS = {
              "run after the body; statement-expression arms of ?: are guarded on the right side; dead arms lose their side "
              "effect. Top-level placement, ?: arms with ++/calls and && || short-circuit are refuted with source-level replays: "
              "known findings F8 F9 F9b."
-             " Statement-expressions in both arms are each guarded on their own side; two unused value operations keep their source order also where temporary names do not sort like their numbers (9/10, 99/100); x++ / x-- keep the operand's type for all eight integer types.",
+             " Statement-expressions in both arms are each guarded on their own side; two unused value operations keep their source order also where temporary names do not sort like their numbers (9/10, 99/100); x++ / x-- keep the operand's type for all eight integer types."
+             " A value-unused postfix statement inside an if / else arm runs exactly in that arm; statement-expressions whose statement is an if; dead arm and live arm both value-producing when a constant condition is folded; update_stmt keeps the hybrid's operand list in sync; the pending table is empty at the start of every behaviour also after a rejected one (reset / entry-point contracts).",
         design_ref="DESIGN.md section 3, C06",
         note=TRUST + "SEQN / SETL evaluation order (T-RZIL); composition over nesting (T-IND); user variables are not named h_tmp<digits>.",
         technique="contract-based deductive verification with ghost state: structural postconditions over the pending table under "
@@ -258,7 +269,8 @@ CHECKS = {
              "final `return instruction_sequence;` / `return NOP();`; string contracts over symbolic code: mention of hi/pkt => "
              "needs_hi/needs_pkt and => declaration in sub-routine bodies; one getter name/declaration per part; getter names unique "
              "over all 2181 bundled names (ground). Operand identifier clashes are a BOUNDED clause (finite spelling set)."
-             " For every history of the compiler instance: the holder tables (registered operands, pending side effects, immediate copies) are empty before each text (reset / entry-point contracts shared with C14), so no stale, undeclared name can enter a later text.",
+             " For every history of the compiler instance: the holder tables (registered operands, pending side effects, immediate copies) are empty before each text (reset / entry-point contracts shared with C14), so no stale, undeclared name can enter a later text."
+             " Operand-list invariant: every operand an emitter reads is in the node's operand list (declaration order is computed from it); folding a constant ?: leaves no reference to an undeclared sequence.",
         design_ref="DESIGN.md section 3, C11",
         note=TRUST + "A-NAMES (user identifiers do not collide with internal base names) is the one assumption left about add_op; "
              "regex semantics T-RE; bottom-up callback order T-LARK.",
